@@ -56,7 +56,7 @@ def plan(prop, tier):
     elif prop == "C05":
         par("all kernels", ("collect_vec", "collect_x", "count", "reduce", "find"), ["P_AtMostOnce", "P_ExactlyOnce", "P_DisjointPulls"],
             NN_=(3 if q else 4), fans="Fans_find")
-        P.append(("turnstile of by-value iterator sources", "MC_Source.tla", source_consts(q), ["TypeOK", "MutualExclusion", "EachOnce", "InOrder"], ["Quiesces", "NothingAfterComplete"]))
+        P.append(("turnstile of by-value iterator sources", "MC_Source.tla", source_consts(q), ["TypeOK", "MutualExclusion", "EachOnce", "InOrder", "NothingLost"], ["Quiesces", "NothingAfterComplete"]))
     elif prop == "C06":
         par("collect(bag+merge)", ("collect_vec",), ["P_OrderedCollect", "P_BuffersSorted"], css="Cs_all" if not q else "Cs_min_auto")
         P.append(("collect_into targets", "MC_CollectInto.tla", {}, ["AppendsAfterPrefix"], []))
@@ -93,7 +93,7 @@ def plan(prop, tier):
 
 
 def source_consts(q):
-    return {"NT": "= 3", "NE": "= 4" if q else "= 5", "Chunks": "= {1, 2}"}
+    return {"NT": "= 3", "NE": "= 4" if q else "= 5", "Chunks": "= {1, 2}", "EagerSkip": "= FALSE"}
 
 
 def tokens_consts(q, panic):
